@@ -1524,7 +1524,7 @@ pub fn run(mut rep: Report) -> i32 {
         registry_growth: u64,
         dup_errors: BTreeSet<String>,
         honest_panics: BTreeSet<String>,
-        samples: Vec<serde_json::Value>,
+        samples: BTreeSet<String>,
         states: BTreeSet<u64>,
         max_msgs: usize,
     }
@@ -1541,7 +1541,7 @@ pub fn run(mut rep: Report) -> i32 {
         registry_growth: 0,
         dup_errors: BTreeSet::new(),
         honest_panics: BTreeSet::new(),
-        samples: vec![],
+        samples: BTreeSet::new(),
         states: BTreeSet::new(),
         max_msgs: 0,
     };
@@ -1591,8 +1591,11 @@ pub fn run(mut rep: Report) -> i32 {
             }
             if ex.nontrivial {
                 agg.nontrivial.insert(explorer::h64(&(ex.peers, ex.boot_kb, &ex.acts)));
-                if agg.samples.len() < 64 {
-                    agg.samples.push(json!({"scenario": ex.scenario, "messages": ex.n_msgs}));
+                // keep the 5 smallest (by text) so that the choice does not depend on thread timing
+                agg.samples.insert(json!({"scenario": ex.scenario, "messages": ex.n_msgs}).to_string());
+                if agg.samples.len() > 5 {
+                    let last = agg.samples.iter().next_back().cloned().unwrap();
+                    agg.samples.remove(&last);
                 }
             }
         },
@@ -1610,9 +1613,8 @@ pub fn run(mut rep: Report) -> i32 {
     for h in &agg.nontrivial {
         rep.nontrivial(h);
     }
-    agg.samples.sort_by_key(|v| v.to_string());
-    for s in agg.samples.into_iter().take(5) {
-        rep.sample(s);
+    for s in agg.samples.iter() {
+        rep.sample(serde_json::from_str(s).unwrap_or(json!(null)));
     }
     rep.set("scenarios_executed", json!(agg.scenarios));
     rep.set("duplicate_deliveries_checked", json!(agg.dup_evals));
